@@ -3,6 +3,7 @@ from __future__ import annotations
 
 import json
 import random
+import zlib
 from io import BytesIO, StringIO
 from pathlib import Path
 
@@ -26,7 +27,14 @@ RULE = (
     "its declared block types (a block that parses an embedded payload with a block file, before or after it "
     "consumes its own lines); the statement is about one file and its declared list, so the expectation stays the "
     "model's for the observed file alone, and every other file must itself come back complete (stored raw data "
-    "concatenate to its content) and be written verbatim. BlockFile.read(x) then "
+    "concatenate to its content) and be written verbatim. In about three cases in ten (drawn from a random stream "
+    "of its own, seeded by the case) the observed file class belongs to a FAMILY of file classes: it is derived from "
+    "a user file class that declares another BLOCKS list of the same storage, or a user file class declaring another "
+    "list is derived from it, or it is one class whose BLOCKS is re-assigned after class creation (first the other "
+    "list, then the observed one); the relative (the first declaration) is, or is not, read and written with a "
+    "content of its own before the observed read and/or between the observed read and write: the declared list of a "
+    "read is the BLOCKS the class resolves to at that moment, so the expectation stays the model's for the observed "
+    "list alone and the relative must come back complete and verbatim. BlockFile.read(x) then "
     "BlockFile.write(buffer) on the real code; observed: class and stored raw data of every element, the written "
     "output. Judged by Spec.C12.holds (elements = the dispatch refinement readBlockFile; raw data concatenate to x; "
     "output == x) and compared with the model. non-trivial = at least one declared block is selected; distinct by "
@@ -56,6 +64,11 @@ def use_other(o, log):
             _BUILT.clear()
         built = _BUILT[id(o)] = (o,) + tuple(fsup.mk_block_file(c["blocks"], binary, classes=block_classes0(c)))
     _, BF, classes = built
+    read_write_check(BF, classes, c, o["when"], log)
+
+
+def read_write_check(BF, classes, c, when, log, who="another block file"):
+    binary = c["binary"]
     x = bytes(c["x"]) if binary else codec.dec_str(c["x"])
     f = BF.read(x)
     parts = []
@@ -70,7 +83,59 @@ def use_other(o, log):
     except Exception:
         kept = None
     if kept != x or w != x:
-        log.append({"when": o["when"], "kept": repr(kept), "written": repr(w)})
+        log.append({"when": when, "kept": repr(kept), "written": repr(w), "who": who})
+
+
+def file_class(base, classes, binary, io=None):
+    """a file class derived from `base` (BlockFile or a user file class) that declares BLOCKS = classes itself"""
+    ns = {"BLOCKS": classes, "STORAGE": "BINARY" if binary else fsup.text_storage("TEXT", len(classes)), "__slots__": []}
+    if io:
+        ns["ENCODING"] = io["enc"]
+    return fsup.derived(type("BF", (base,), ns), len(classes))
+
+
+class Family:
+    """the observed file class and, with case["family"] = {"rel": "parent"|"child"|"redeclare", "file": a case
+    of the same storage (the relative's declared list and content), "uses": sub-list of ["before", "between"]},
+    its relative: "parent" — the observed class is derived from the relative and declares its own BLOCKS;
+    "child" — the relative is derived from the observed class and declares its own BLOCKS; "redeclare" — one
+    class, created with the relative's list, whose BLOCKS is assigned the observed list before the observed read
+    (and the relative's list again for a use "between").  use(when) reads and writes the relative's content with
+    the relative's declaration if `when` is among "uses"."""
+
+    def __init__(self, case, classes, log):
+        from cfinterface.files.blockfile import BlockFile
+
+        self.fam = fam = case.get("family")
+        self.log = log
+        binary, io = case["binary"], case.get("io")
+        self.classes = classes
+        if not fam:
+            self.BF = file_class(BlockFile, classes, binary, io)
+            return
+        c = fam["file"]
+        self.rclasses = rclasses = block_classes0(c)
+        if fam["rel"] == "parent":
+            self.R = file_class(BlockFile, rclasses, binary)
+            self.BF = file_class(self.R, classes, binary, io)
+        elif fam["rel"] == "child":
+            self.BF = file_class(BlockFile, classes, binary, io)
+            self.R = file_class(self.BF, rclasses, binary)
+        else:
+            self.BF = self.R = file_class(BlockFile, rclasses, binary, io)
+
+    def use(self, when):
+        fam = self.fam
+        if not fam:
+            return
+        redeclare = fam["rel"] == "redeclare"
+        if when in fam["uses"]:
+            if redeclare:
+                self.R.BLOCKS = self.rclasses
+            read_write_check(self.R, self.rclasses, fam["file"], when, self.log, who="the relative of the observed file class (its declaration: see the family)")
+        if redeclare:
+            # the observed declaration from here on
+            self.BF.BLOCKS = self.classes
 
 
 def block_classes(case, log=None):
@@ -143,12 +208,16 @@ def run_impl(case):
         for o in others:
             if o["when"] == "before":
                 use_other(o, log)
-        BF, classes = fsup.mk_block_file(case["blocks"], binary, classes=block_classes(case, log), io=case.get("io"))
+        classes = block_classes(case, log)
+        fam = Family(case, classes, log)
+        BF = fam.BF
+        fam.use("before")
         x = bytes(case["x"]) if binary else codec.dec_str(case["x"])
         f = fsup.read_text(BF, x, case.get("io"))
         for o in others:
             if o["when"] == "between":
                 use_other(o, log)
+        fam.use("between")
         cap = len(x) + 5
         elems = [fsup.enc_belem(e, classes, binary) for e in fsup.capped(f.data, cap)]
         w = fsup.write_text(f, case.get("io"), binary, (f.data,) if case.get("query_in_write") else ())
@@ -176,12 +245,12 @@ def judge(case, obs, resp):
     if not resp["model_holds"]:
         return {"status": "error", "why": f"the MODEL violates Spec.C12.holds: {show(resp.get('model'), case['binary'])}"}
     if "exc" in obs:
-        return {"status": "oracle", "why": f"BlockFile read/write raised {obs['exc']}: {obs.get('msg')}{show_derive(case)}{show_others(case)}"}
+        return {"status": "oracle", "why": f"BlockFile read/write raised {obs['exc']}: {obs.get('msg')}{show_derive(case)}{show_family(case)}{show_others(case)}"}
     if not resp["holds"]:
-        return {"status": "oracle", "why": f"x={showx(case)}{show_derive(case)}{show_others(case)}: got {show(obs, case['binary'])}; required {show(resp.get('model'), case['binary'])}"}
+        return {"status": "oracle", "why": f"x={showx(case)}{show_derive(case)}{show_family(case)}{show_others(case)}: got {show(obs, case['binary'])}; required {show(resp.get('model'), case['binary'])}"}
     if obs.get("others_bad"):
         b = obs["others_bad"][0]
-        return {"status": "oracle", "why": f"another block file, read and written {b['when']} the read of the observed one, did not come back verbatim: kept {b['kept']}, written {b['written']}{show_others(case)}"}
+        return {"status": "oracle", "why": f"{b.get('who', 'another block file')}, read and written {b['when']} the read of the observed one, did not come back verbatim: kept {b['kept']}, written {b['written']}{show_family(case)}{show_others(case)}"}
     if not resp["agree"]:
         return {"status": "corr", "why": "model and implementation disagree"}
     return {"status": "ok", "why": ""}
@@ -209,6 +278,25 @@ def show_others(case):
                  "during": f"inside read() of B{o.get('types')} ({'before' if o.get('pos') == 'first' else 'after'} its own lines)"}[o["when"]]
         out.append(f"a {'BINARY' if c['binary'] else 'TEXT'} block file with types [{pats}] and content {showx(c)} read and written {where}")
     return " [other files in the same process: " + "; ".join(out) + "]"
+
+
+def show_family(case):
+    fam = case.get("family")
+    if not fam:
+        return ""
+    c = fam["file"]
+    pats = ", ".join(f"({fsup.pat_render(b['begin'], c['binary'])!r}, {fsup.pat_render(b['end'], c['binary'])!r})" for b in c["blocks"])
+    mine = ", ".join(f"({fsup.pat_render(b['begin'], case['binary'])!r}, {fsup.pat_render(b['end'], case['binary'])!r})" for b in case["blocks"])
+    how = {"parent": f"the observed file class (BLOCKS [{mine}]) is DERIVED from a user file class declaring BLOCKS [{pats}]",
+           "child": f"a user file class declaring BLOCKS [{pats}] is DERIVED from the observed file class (BLOCKS [{mine}])",
+           "redeclare": f"the observed file class was created with BLOCKS [{pats}] and its BLOCKS was then ASSIGNED [{mine}]"}[fam["rel"]]
+    if fam["uses"]:
+        what = "that first declaration" if fam["rel"] == "redeclare" else "that relative"
+        how += f"; {what} was read and written with content {showx(c)} " + " and ".join(
+            {"before": "before the observed read", "between": "between the observed read and write"}[u] for u in fam["uses"])
+    else:
+        how += "; nothing else was read"
+    return f" [family: {how}]"
 
 
 def showx(case):
@@ -255,6 +343,10 @@ def features(case, obs):
         if o["when"] == "during" and isinstance(obs, dict) and "elems" in obs:
             if {e["cls"] for e in obs["elems"] if "cls" in e} & set(o["types"]):
                 f.append("other_file_read_during_took_place")
+    fam = case.get("family")
+    if fam:
+        f.append(f"family_{fam['rel']}")
+        f += [f"relative_read_{u}" for u in fam["uses"]] or ["relative_never_read"]
     x = case["x"]
     f.append("empty_content" if not x else ("final_newline" if x[-1] == 10 else "no_final_newline"))
     return f
@@ -351,12 +443,30 @@ def add_others(rng, case):
     return case
 
 
+def add_family(case):
+    """with probability 0.3, from a random stream of its own seeded by the case (the streams of the other
+    dimensions stay as they were): the observed file class gets a relative — its parent (0.4), a child (0.3), or
+    an earlier declaration of the same class (0.3) — with a declared list and a content of the same storage from
+    the same generators, read and written before the observed read (0.7) and/or between the observed read and
+    write (0.3)"""
+    rng = random.Random(zlib.crc32(json.dumps(case, sort_keys=True).encode()))
+    if rng.random() >= 0.3:
+        return case
+    c = add_derivation(rng, random_bin_case0(rng) if case["binary"] else random_text_case0(rng))
+    c = {k: v for k, v in c.items() if k in ("binary", "blocks", "x", "derive")}
+    r = rng.random()
+    rel = "parent" if r < 0.4 else ("child" if r < 0.7 else "redeclare")
+    uses = [u for u, p in (("before", 0.7), ("between", 0.3)) if rng.random() < p]
+    case["family"] = {"rel": rel, "file": c, "uses": uses}
+    return case
+
+
 def random_text_case(rng):
-    return add_others(rng, add_derivation(rng, random_text_case0(rng)))
+    return add_family(add_others(rng, add_derivation(rng, random_text_case0(rng))))
 
 
 def random_bin_case(rng):
-    return add_others(rng, add_derivation(rng, random_bin_case0(rng)))
+    return add_family(add_others(rng, add_derivation(rng, random_bin_case0(rng))))
 
 
 def random_text_case0(rng):
@@ -461,6 +571,13 @@ def shrinks(case):
                     yield {**case, "others": others[:i] + [{**o, "types": [u for u in o["types"] if u != t]}] + others[i + 1 :]}
             for c in shrinks(o["file"]):
                 yield {**case, "others": others[:i] + [{**o, "file": c}] + others[i + 1 :]}
+    fam = case.get("family")
+    if fam:
+        yield {k: v for k, v in case.items() if k != "family"}
+        for u in fam["uses"]:
+            yield {**case, "family": {**fam, "uses": [v for v in fam["uses"] if v != u]}}
+        for c in shrinks(fam["file"]):
+            yield {**case, "family": {**fam, "file": c}}
     derive = case.get("derive")
     if derive:
         # the same effective patterns on stand-alone types, then one derivation less
